@@ -623,7 +623,7 @@ def gen_de_all(rng, tier):
     for s in exhaustive("01.-e_ ", 4):
         for t in ("int", "float", "Decimal"):
             yield de_case(s, [t])
-    for s in exhaustive("+9E.N", 3 if quick else 4):
+    for s in exhaustive("+9E.N", 3 if quick else 40):
         for t in ("int", "float", "Decimal"):
             yield de_case(s, [t])
     for s in exhaustive("INFinfaAty", 3):
@@ -643,13 +643,13 @@ def gen_de_all(rng, tier):
         yield de_case(s, ["bytes"], KW(format="base64"))
         yield de_case(s, ["bytes"], KW(format=None))
         yield de_case(s, ["bytes"], KW(format="base32"))
-    for s in exhaustive("AQ/=w", 5 if quick else 6):
+    for s in exhaustive("AQ/=w", 5 if quick else 60):
         yield de_case(s, ["bytes"], KW(format="base64"))
     for s in exhaustive("Q= *", 4):
         yield de_case(s, ["bytes"], KW(format="base64"))
     for s in exhaustive("0aF g", 4):
         yield de_case(s, ["bytes"], KW(format="base16"))
-    for _ in range(300 if quick else 5000):
+    for _ in range(300 if quick else 50000):
         b = rand_bytes(rng)
         fmt = rng.choice(["base16", "base64"])
         s = ser_plain(b, KW(format=fmt))
@@ -669,14 +669,14 @@ def gen_de_all(rng, tier):
             yield de_case(s, ["QName"], KW(ns_map=m))
     for s in exhaustive("a:{}u 1", 4):
         yield de_case(s, ["QName"], KW(ns_map=[["u", "urn:u"], [None, "urn:d"]]))
-    for _ in range(300 if quick else 5000):
+    for _ in range(300 if quick else 50000):
         m = rng.choice(NS_MAPS)
         s = rng.choice(QNAME_HAND)
         for _ in range(rng.choice([0, 1, 1, 2])):
             s = mutate(rng, s, "a:{}u -#./_é́१1\n")
         yield de_case(pad(rng, s), ["QName"], KW(ns_map=m))
     # random valid values, serialised by the real code, optionally padded / mutated
-    for _ in range(1500 if quick else 30000):
+    for _ in range(1500 if quick else 300000):
         t = rng.choice(ATOM_TYPES)
         v = rand_atom(rng, t)
         kw = KW(format=rng.choice(["base16", "base64"])) if t == "bytes" else KW(ns_map=rng.choice(NS_MAPS)) if t == "QName" else KW()
@@ -698,7 +698,7 @@ def gen_de_all(rng, tier):
             for s in pool:
                 yield de_case(s, list(perm), KW(format="base16", ns_map=[["xs", "http://www.w3.org/2001/XMLSchema"]]))
                 yield {**de_case(s, list(perm), KW(format="base16", ns_map=[["xs", "http://www.w3.org/2001/XMLSchema"]])), "sort": True}
-    for _ in range(400 if quick else 8000):
+    for _ in range(400 if quick else 80000):
         k = rng.randint(0, 5)
         types = [rng.choice(ATOM_TYPES + ["unregistered"]) for _ in range(k)]
         if rng.random() < 0.3:
@@ -716,9 +716,9 @@ def gen_de_all(rng, tier):
         for s in ENUM_CTX_STRINGS:
             for kw in ENUM_CTX_KWS:
                 yield de_case(s, [{"enum": members}], kw)
-    for _ in range(100 if quick else 2000):
+    for _ in range(100 if quick else 20000):
         yield de_case(pad(rng, rng.choice(ENUM_CTX_STRINGS)), [{"enum": rng.choice(ENUM_SETS_CTX)}], rng.choice(ENUM_CTX_KWS))
-    for _ in range(400 if quick else 8000):
+    for _ in range(400 if quick else 80000):
         members = rand_enum(rng)
         if members is None:
             continue
@@ -801,7 +801,7 @@ def gen_ser(rng, tier):
     for members in ENUM_SETS:
         for m in members:
             yield {"v": {"t": "member", "v": m}, "kw": KW(format="base16", ns_map=[["u", "urn:u"]])}
-    for _ in range(1500 if quick else 30000):
+    for _ in range(1500 if quick else 300000):
         t = rng.choice(ATOM_TYPES)
         v = rand_atom(rng, t)
         kw = KW(format=rng.choice([None, "base16", "base64"])) if t == "bytes" else KW(ns_map=rng.choice(NS_MAPS)) if t == "QName" else KW()
@@ -828,7 +828,7 @@ def gen_test_all(rng, tier):
         for t in ("int", "float", "Decimal", "bool", "str"):
             for strict in (True, False):
                 yield {**de_case(s, [t]), "strict": strict}
-    for _ in range(600 if quick else 10000):
+    for _ in range(600 if quick else 100000):
         t = rng.choice(["int", "float", "Decimal", "bool"])
         v = rand_atom(rng, t)
         s = ser_plain(v)
@@ -850,7 +850,7 @@ def gen_sort(rng, tier):
     for a, b in itertools.permutations(names, 2):
         yield {"names": [a, b]}
     yield {"names": []}
-    for _ in range(800 if tier == "quick" else 10000):
+    for _ in range(800 if tier == "quick" else 100000):
         k = rng.randint(2, 8)
         yield {"names": [rng.choice(names) for _ in range(k)]}
     for _ in range(100):
@@ -874,16 +874,16 @@ def gen_from_value(rng, tier):
         yield {"v": enc_atom(v)}
     for v in FLOAT_EDGE:
         yield {"v": enc_atom(v)}
-    for _ in range(600 if tier == "quick" else 10000):
+    for _ in range(600 if tier == "quick" else 100000):
         yield {"v": enc_atom(rand_atom(rng, rng.choice(["int", "float", "float", "bool", "Decimal", "bytes"])))}
 
 
 def gen_float_lit(rng, tier):
     for s in NUM_HAND:
         yield {"s": s}
-    for s in exhaustive("1.e-_ 0", 5 if tier == "quick" else 6):
+    for s in exhaustive("1.e-_ 0", 5 if tier == "quick" else 60):
         yield {"s": s}
-    for _ in range(800 if tier == "quick" else 20000):
+    for _ in range(800 if tier == "quick" else 200000):
         s = repr(rand_float(rng))
         for _ in range(rng.choice([0, 1, 1, 2])):
             s = mutate(rng, s, "0123456789+-.eE_ infa٣")
@@ -911,7 +911,7 @@ def gen_is_ncname(rng, tier):
     alpha = "a_1-.: é́·٣²"
     for s in exhaustive(alpha, 3):
         yield {"s": s}
-    for _ in range(500 if tier == "quick" else 5000):
+    for _ in range(500 if tier == "quick" else 50000):
         yield {"s": "".join(chr(rng.choice([rng.randint(0, 0x250), rng.randint(0x300, 0x3ff), rng.randint(0x900, 0x97f), rng.randint(0x2000, 0x2200), rng.randint(0, 0x2FFFF)])) for _ in range(rng.randint(1, 3)))}
 
 
@@ -932,7 +932,7 @@ def gen_is_uri(rng, tier):
         yield {"s": s}
     for s in ["http://www.w3.org/2000/09/xmldsig#", "http://www.w3.org/1999/02/22-rdf-syntax-ns#", "a-b:c", "a+b-c.d:e", "-a:b", "a,b#c,d", "a#b,c-d", "a\\b", "a^b#c", "a#b^c", "a#b]c", "a#b\\c"]:
         yield {"s": s}
-    for _ in range(300 if tier == "quick" else 5000):
+    for _ in range(300 if tier == "quick" else 50000):
         n = rng.randint(1, 6)
         yield {"s": "".join(rng.choice(["a", "Z", "0", "-", ",", ".", "/", ":", "#", "%", "~", "\\", "^", "]", "_", " ", "\n", chr(rng.randint(0x80, 0x2FFF)), chr(rng.randint(0, 0x10FFFF))]) for _ in range(n)).encode("utf-8", "surrogatepass").decode("utf-8", "replace")}
 
